@@ -602,13 +602,20 @@ func r14_3(c *Ctx) {
 	if len(c.Obl) == before {
 		c.ok("Compile: receiver only read", f.Pos(), "no store through the receiver in Compile or anything it reaches with a reference to the compiler")
 	}
-	// the writer handed to the tree is a local allocation
+	// the writer handed to the tree is a local allocation — of Compile itself, or of a private factory only Compile
+	// calls, which returns it fresh
 	var writer *ssa.Alloc
-	allInstrs(f, func(_ *ssa.BasicBlock, _ int, in ssa.Instruction) {
-		if al, ok := in.(*ssa.Alloc); ok && namedIs(al.Type(), "ast", "CodeWriter") {
-			writer = al
-		}
-	})
+	wfn := f
+	_, scope := compileScope(c)
+	for _, g := range scope {
+		allInstrs(g, func(_ *ssa.BasicBlock, _ int, in ssa.Instruction) {
+			if al, ok := in.(*ssa.Alloc); ok && namedIs(al.Type(), "ast", "CodeWriter") && writer == nil {
+				if g == f || returnsFreshAlloc(g) {
+					writer, wfn = al, g
+				}
+			}
+		})
+	}
 	if writer == nil {
 		c.bad("Compile: writer", f.Pos(), "Compile does not allocate its own ast.CodeWriter: the writer is shared between compilations")
 	} else {
@@ -616,7 +623,7 @@ func r14_3(c *Ctx) {
 		// mapper: stored value must be a fresh result of a sourcemap function that returns a new allocation
 		mapperFld := c.fieldByName("ast", "CodeWriter", "Mapper")
 		n := 0
-		allInstrs(f, func(_ *ssa.BasicBlock, _ int, in ssa.Instruction) {
+		allInstrs(wfn, func(_ *ssa.BasicBlock, _ int, in ssa.Instruction) {
 			st, ok := in.(*ssa.Store)
 			if !ok {
 				return
@@ -636,6 +643,19 @@ func r14_3(c *Ctx) {
 			}
 			c.check(fresh, key, st.Pos(), "mapper is a fresh allocation returned by the sourcemap constructor", "the mapper stored into the writer must be a fresh result of the sourcemap constructor (a shared mapper would mix the positions of concurrent compilations)")
 		})
+		for _, g := range scope {
+			if g == wfn {
+				continue
+			}
+			allInstrs(g, func(_ *ssa.BasicBlock, _ int, in ssa.Instruction) {
+				if st, ok := in.(*ssa.Store); ok {
+					if _, ok := isFieldAddr(st.Addr, mapperFld); ok {
+						n++
+						c.bad(fmt.Sprintf("Compile: mapper store #%d", n), st.Pos(), "the writer's mapper is replaced outside the function that allocates the writer")
+					}
+				}
+			})
+		}
 		if n == 0 {
 			c.unres("Compile: mapper store", f.Pos(), "no store to the writer's Mapper field found in Compile")
 		}
@@ -975,26 +995,30 @@ func r14_6(c *Ctx) {
 		c.unres("anchors", token.NoPos, "CodeWriter.Mapper or Compile not found")
 		return
 	}
-	allInstrs(compile, func(b *ssa.BasicBlock, _ int, in ssa.Instruction) {
-		st, ok := in.(*ssa.Store)
-		if !ok {
-			return
-		}
-		if _, ok := isFieldAddr(st.Addr, mapperFld); !ok {
-			return
-		}
-		for _, blk := range compile.Blocks {
-			iff := blockIf(blk)
-			if iff == nil || !condEdgeDominates(blk, true, b) {
-				continue
+	_, cscope := compileScope(c)
+	for _, sf := range cscope {
+		sf := sf
+		allInstrs(sf, func(b *ssa.BasicBlock, _ int, in ssa.Instruction) {
+			st, ok := in.(*ssa.Store)
+			if !ok {
+				return
 			}
-			if u, ok := iff.Cond.(*ssa.UnOp); ok && u.Op == token.MUL {
-				if fa, ok := u.X.(*ssa.FieldAddr); ok && namedIs(fa.X.Type(), "compiler", "Compiler") {
-					genFld = fieldOfAddr(fa)
+			if _, ok := isFieldAddr(st.Addr, mapperFld); !ok {
+				return
+			}
+			for _, blk := range sf.Blocks {
+				iff := blockIf(blk)
+				if iff == nil || !condEdgeDominates(blk, true, b) {
+					continue
+				}
+				if u, ok := iff.Cond.(*ssa.UnOp); ok && u.Op == token.MUL {
+					if fa, ok := u.X.(*ssa.FieldAddr); ok && namedIs(fa.X.Type(), "compiler", "Compiler") {
+						genFld = fieldOfAddr(fa)
+					}
 				}
 			}
-		}
-	})
+		})
+	}
 	if genFld == nil {
 		c.unres("anchors: compiler switch", compile.Pos(), "could not identify the Compiler field that guards the creation of the mapper (accepted idiom: if c.<flag> { w.Mapper = sourcemap.New() })")
 		return
@@ -1412,41 +1436,48 @@ func r14_7(c *Ctx) {
 	}
 	var ppFlag *types.Var
 	allowed := map[string]bool{"Builder": true, "PrettyPrint": true, "IndentString": true, "WriteSemicolons": true, "Mapper": true, "IndentLevel": true}
-	allInstrs(compile, func(_ *ssa.BasicBlock, _ int, in ssa.Instruction) {
-		st, ok := in.(*ssa.Store)
-		if !ok {
-			return
-		}
-		fa, ok := st.Addr.(*ssa.FieldAddr)
-		if !ok || !namedIs(fa.X.Type(), "ast", "CodeWriter") {
-			return
-		}
-		fld := fieldOfAddr(fa)
-		key := "Compile: writer field " + fld.Name()
-		switch {
-		case fld == pi.pp:
-			if u, ok := st.Val.(*ssa.UnOp); ok && u.Op == token.MUL {
-				if cfa, ok := u.X.(*ssa.FieldAddr); ok && namedIs(cfa.X.Type(), "compiler", "Compiler") {
-					ppFlag = fieldOfAddr(cfa)
-				}
+	_, scope7 := compileScope(c)
+	for _, sf := range scope7 {
+		allInstrs(sf, func(_ *ssa.BasicBlock, _ int, in ssa.Instruction) {
+			st, ok := in.(*ssa.Store)
+			if !ok {
+				return
 			}
-			c.check(ppFlag != nil, key, st.Pos(), "PrettyPrint is the compiler's pretty flag", "PrettyPrint must be loaded from the compiler's pretty flag")
-		case allowed[fld.Name()]:
-			c.ok(key, st.Pos(), "pretty-only field (or mapper, R14.6)")
-		default:
-			c.unres(key, st.Pos(), "Compile sets writer field %s, which R14.7 does not know to be pretty-only", fld.Name())
-		}
-	})
+			fa, ok := st.Addr.(*ssa.FieldAddr)
+			if !ok || !namedIs(fa.X.Type(), "ast", "CodeWriter") {
+				return
+			}
+			fld := fieldOfAddr(fa)
+			key := "Compile: writer field " + fld.Name()
+			switch {
+			case fld == pi.pp:
+				if u, ok := st.Val.(*ssa.UnOp); ok && u.Op == token.MUL {
+					if cfa, ok := u.X.(*ssa.FieldAddr); ok && namedIs(cfa.X.Type(), "compiler", "Compiler") {
+						ppFlag = fieldOfAddr(cfa)
+					}
+				}
+				c.check(ppFlag != nil, key, st.Pos(), "PrettyPrint is the compiler's pretty flag", "PrettyPrint must be loaded from the compiler's pretty flag")
+			case allowed[fld.Name()]:
+				c.ok(key, st.Pos(), "pretty-only field (or mapper, R14.6)")
+			default:
+				c.unres(key, st.Pos(), "Compile sets writer field %s, which R14.7 does not know to be pretty-only", fld.Name())
+			}
+		})
+	}
 	if ppFlag == nil {
 		c.unres("Compile: pretty flag", compile.Pos(), "the writer's PrettyPrint is not initialised from a Compiler field")
 		return
 	}
 	ppRegion := map[*ssa.BasicBlock]bool{}
-	for _, b := range compile.Blocks {
-		if iff := blockIf(b); iff != nil {
-			if _, ok := isFieldLoad(iff.Cond, ppFlag); ok {
-				for blk := range edgeRegion(compile, b, 0) {
-					ppRegion[blk] = true
+	inScope := map[*ssa.Function]bool{}
+	for _, sf := range scope7 {
+		inScope[sf] = true
+		for _, b := range sf.Blocks {
+			if iff := blockIf(b); iff != nil {
+				if _, ok := isFieldLoad(iff.Cond, ppFlag); ok {
+					for blk := range edgeRegion(sf, b, 0) {
+						ppRegion[blk] = true
+					}
 				}
 			}
 		}
@@ -1471,6 +1502,15 @@ func r14_7(c *Ctx) {
 				for _, e := range phi.Edges {
 					walk(e, seen)
 				}
+				return
+			}
+			// the text comes out of a private helper of Compile: its returned values are the leaves
+			if call, ok := v.(*ssa.Call); ok && inScope[call.Call.StaticCallee()] && call.Call.StaticCallee() != compile && !ppRegion[call.Block()] {
+				allInstrs(call.Call.StaticCallee(), func(_ *ssa.BasicBlock, _ int, hi ssa.Instruction) {
+					if r, ok := hi.(*ssa.Return); ok && len(r.Results) == 1 {
+						walk(r.Results[0], seen)
+					}
+				})
 				return
 			}
 			leaves = append(leaves, v)
@@ -1638,7 +1678,9 @@ func mirroredBranches(c *Ctx, f *ssa.Function, b *ssa.BasicBlock) string {
 		allocs := map[ssa.Value]bool{}
 		var out []string
 		returns := false
-		valkey := func(v ssa.Value) string {
+		depthKey := 0
+		var valkey func(v ssa.Value) string
+		valkey = func(v ssa.Value) string {
 			switch x := v.(type) {
 			case *ssa.Const:
 				return "const " + x.String()
@@ -1654,6 +1696,20 @@ func mirroredBranches(c *Ctx, f *ssa.Function, b *ssa.BasicBlock) string {
 			}
 			if in, ok := v.(ssa.Instruction); ok && in.Block() != nil && !inEither(in.Block()) {
 				return fmt.Sprintf("outer %p", v)
+			}
+			// the same pure function applied to the same outer values gives the same value on both edges
+			if call, ok := v.(*ssa.Call); ok && !call.Call.IsInvoke() && depthKey < 3 {
+				if cal := call.Call.StaticCallee(); cal != nil && pureLibCall(cal, 0) {
+					depthKey++
+					k := "pure " + fnName(cal) + "("
+					for _, a := range call.Call.Args {
+						k += valkey(a) + ","
+					}
+					depthKey--
+					if !strings.Contains(k, "local ") {
+						return k + ")"
+					}
+				}
 			}
 			return fmt.Sprintf("local %p", v)
 		}
@@ -1690,6 +1746,11 @@ func mirroredBranches(c *Ctx, f *ssa.Function, b *ssa.BasicBlock) string {
 						continue
 					}
 				}
+				if call, ok := in.(*ssa.Call); ok && !call.Call.IsInvoke() {
+					if cal := call.Call.StaticCallee(); cal != nil && pureLibCall(cal, 0) {
+						continue // no effect of its own; its value is compared where it is stored or returned
+					}
+				}
 				if notSourcemapOnly(in, nil) != "" {
 					out = append(out, fmt.Sprintf("other %p", in))
 				}
@@ -1709,4 +1770,105 @@ func mirroredBranches(c *Ctx, f *ssa.Function, b *ssa.BasicBlock) string {
 		}
 	}
 	return fmt.Sprintf("both edges return after the same %d effect(s) on non-source-map state; only source-map fields differ", len(s0))
+}
+
+// compileScope: Compile and the private functions of package compiler that only it (or another of them) calls — the
+// pieces a maintainer may split Compile into. What holds for "Compile" is checked over this scope.
+func compileScope(c *Ctx) (*ssa.Function, []*ssa.Function) {
+	compile := c.fn("(*compiler.Compiler).Compile")
+	if compile == nil {
+		return nil, nil
+	}
+	in := map[*ssa.Function]bool{compile: true}
+	callers := map[*ssa.Function][]*ssa.Function{}
+	for _, g := range c.libFunctions() {
+		allInstrs(g, func(_ *ssa.BasicBlock, _ int, ins ssa.Instruction) {
+			if ci, ok := ins.(ssa.CallInstruction); ok {
+				if cal := staticCallee(ci); cal != nil && cal.Pkg == compile.Pkg {
+					callers[cal] = append(callers[cal], g)
+				}
+			}
+		})
+	}
+	for changed := true; changed; {
+		changed = false
+		for f, cs := range callers {
+			if in[f] || f.Object() == nil || f.Object().Exported() {
+				continue
+			}
+			all := true
+			for _, g := range cs {
+				if !in[g] {
+					all = false
+				}
+			}
+			if !all {
+				continue
+			}
+			if _, closed := c.argsAtCallers(f, 0); !closed && len(f.Params) > 0 {
+				continue
+			}
+			in[f] = true
+			changed = true
+		}
+	}
+	out := []*ssa.Function{compile}
+	var rest []*ssa.Function
+	for f := range in {
+		if f != compile {
+			rest = append(rest, f)
+		}
+	}
+	sort.Slice(rest, func(i, j int) bool { return fnName(rest[i]) < fnName(rest[j]) })
+	return compile, append(out, rest...)
+}
+
+// pureLibCall: a call whose result depends on its arguments only and that writes nothing but its own locals: library
+// functions without stores/updates/deferred calls whose callees are pure in turn, read-only methods of strings.Builder
+// and the functions of package strings.
+func pureLibCall(f *ssa.Function, depth int) bool {
+	if f == nil || depth > 4 {
+		return false
+	}
+	if f.Blocks == nil || !isLibPath(pkgPathOf(f)) {
+		switch pkgPathOf(f) {
+		case "strings":
+			if f.Signature.Recv() == nil {
+				return true
+			}
+			return f.Name() == "String" || f.Name() == "Len"
+		case "strconv", "unicode", "unicode/utf8":
+			return true
+		}
+		return false
+	}
+	pure := true
+	allInstrs(f, func(_ *ssa.BasicBlock, _ int, in ssa.Instruction) {
+		switch x := in.(type) {
+		case *ssa.Store:
+			if _, local := x.Addr.(*ssa.Alloc); !local {
+				if ia, ok := x.Addr.(*ssa.IndexAddr); ok {
+					if _, local := ia.X.(*ssa.Alloc); local {
+						return
+					}
+					// an element of a slice this very function obtained from a pure call (strings.Split …): its own
+					if src, ok := ia.X.(*ssa.Call); ok && !src.Call.IsInvoke() && src.Call.StaticCallee() != nil && pureLibCall(src.Call.StaticCallee(), depth+1) {
+						return
+					}
+				}
+				pure = false
+			}
+		case *ssa.MapUpdate, *ssa.Send, *ssa.Go, *ssa.Defer, *ssa.Panic:
+			pure = false
+		case *ssa.Call:
+			if _, isB := x.Call.Value.(*ssa.Builtin); isB {
+				return
+			}
+			cal := x.Call.StaticCallee()
+			if cal == nil || cal == f || !pureLibCall(cal, depth+1) {
+				pure = false
+			}
+		}
+	})
+	return pure
 }
